@@ -359,11 +359,17 @@ def judge(prog, rc, codes, err):
     return True, False, ""
 
 
-def run(root, pid, tier, seed):
+def run(root, pid, tier, seed, only=None, rule=None):
+    """only: set of template names - C02 and C10 re-use the accept/reject twins of the operations they are about"""
     t0 = time.time()
     lib = E.Lib(root)
     wd = E.workdir(root, pid)
+    if only is not None:
+        wd = os.path.join(wd, "twins")
+        os.makedirs(wd, exist_ok=True)
     progs = build(tier, seed)
+    if only is not None:
+        progs = [p for p in progs if p.template in only or any(p.template.endswith("_" + t) for t in only)]
     results = E.pmap(lambda ip: verdict(lib, wd, ip[0], ip[1]), list(enumerate(progs)))
     failures = []
     classes = {}
@@ -389,7 +395,7 @@ def run(root, pid, tier, seed):
     samples = [{"template": p.template, "params": p.params, "expect": p.expect, "program": p.body[:300]} for p in (progs[0], progs[1], progs[len(progs) // 2], progs[-2], progs[-1])]
     return E.evidence(
         pid, tier, seed, "exploration", len(progs), len(rejects),
-        "programs generated in accept/reject twins that differ in exactly one length, type name or lifetime, compiled (rustc --emit=metadata) against the rlib built from the working tree. "
+        rule or "programs generated in accept/reject twins that differ in exactly one length, type name or lifetime, compiled (rustc --emit=metadata) against the rlib built from the working tree. "
         "Families: (1) length relations - zip in all ten receiver forms (and its doc-hidden entry points inverted_zip / inverted_zip2), ==, <, cmp, partial_cmp, split (owned/&/&mut; wrong second length; pivot past the end), pop_back/pop_front/remove/swap_remove (result length; from an empty array), append/prepend, concat, flatten/unflatten (owned/&/&mut), into_array/from_array/From/Into/AsRef/AsMut/From<&[T;N]>/From<&mut [T;N]>, from_chunks/into_chunks (+_mut), tuples of every arity incl. 13, arr! length inference (list and both repeat forms), user impl of ArrayLength (sealed), stack x boxed zip; "
         "(2) auto traits - Send, Sync, Copy, Clone for GenericArray, GenericArrayIter and Box<GenericArray> over ten element types (u8, String, Rc, Cell, RefCell, *const u8, MutexGuard, Arc<Cell>, &Cell, AtomicU8), expected verdict = whether the element type has the trait (iterator and Box never Copy); "
         "(3) lifetimes - for 41 reference-returning APIs: widening ('a in, 'static out), escape (view of a local outlives it), and for mutable views two live mutable views / shared use while a mutable view is live, for shared views mutation of the source while the view is live; arr! of references; collect/map of references. "
